@@ -261,6 +261,32 @@ def openedWhileDown (b : Bool) : List Obs → Bool
   | .disconnect _ :: l => openedWhileDown false l
   | _ :: l => openedWhileDown b l
 
+/-! ### the repair of the lost-connection counter (`lostFix`)
+
+`reconnecting()` is called after every connection error / refusal of an event loop that has been connected at some
+time (`conn_count > 0`), also when the connection is already down (a failed re-connect): every failed attempt of an
+outage counts as another lost connection. Repaired: a loss is counted only when the gauge said up. -/
+
+def MqttRec.applyV (fix : Bool) (r : MqttRec) : MEv → MqttRec
+  | .reconnecting =>
+    if fix && !r.up then { r with up := false } else { r with up := false, lost := r.lost + 1 }
+  | e => r.apply e
+
+def MqttRec.applyAllV (fix : Bool) (r : MqttRec) (h : List MEv) : MqttRec := h.foldl (MqttRec.applyV fix) r
+
+def mqttRecOfV (fix : Bool) (tbl : List QMsg) (log : List Obs) : MqttRec :=
+  MqttRec.zero.applyAllV fix (scan tbl log).out
+
+/-- Specification of the lost-connection counter on the event history: a connection error / refusal while the
+    connection is established. -/
+def losses (b : Bool) : List Obs → Nat
+  | [] => 0
+  | .polled _ .accept :: l => losses true l
+  | .polled _ .other :: l => losses b l
+  | .polled _ _ :: l => (if b then 1 else 0) + losses false l
+  | .disconnect _ :: l => losses false l
+  | _ :: l => losses b l
+
 /-- Number of connection errors / refusals the event loops saw. -/
 def errorPolls : List Obs → Nat
   | [] => 0
